@@ -21,7 +21,7 @@ ADDR_DF = (0, 4, 5, 11, 16, 17, 18, 20, 21)
 AP_DF = (0, 4, 5, 16, 20, 21)
 
 
-def run(prog, rep, tier):
+def run(prog, rep, tier, compose=True):
     rep.explanation = ('A may/must dataflow over the MIR of each (derived or hand-written) Serialize impl gives, per enum-variant '
                        'combination, the emitted keys with their constant tags, value types and source fields; the serde private '
                        'serializers\' acceptance tables decide serialisability.')
@@ -234,3 +234,28 @@ def run(prog, rep, tier):
             if t and t['k'] == 'call' and t['callee'] and (t['callee'].get('did') or '').startswith('serde_json::ser::to_string'):
                 tostr += 1
     rep.floor('serde_json::to_string call sites', tostr, 3)
+    if compose:
+        composed(prog, rep, tier)
+
+
+def composed(prog, rep, tier):
+    """clauses of the statement that other checkers already decide, evaluated here as well (not when C03 evaluates C07)"""
+    # "decoding that hex again gives the same fields": the decoder keeps nothing between two calls.  Static reachability
+    # from Message::try_from over rs1090; no reached body writes or enters thread-local / interior-mutable / atomic state.
+    msg_try = util.find_impl_fn(prog, 'decode::Message', 'std::convert::TryFrom<&[u8]>', 'try_from')
+    if msg_try is None:
+        rep.missing('<Message as TryFrom<&[u8]>>::try_from')
+        return
+    reach = util.static_reach(prog, [msg_try])
+    rep.floor('rs1090 bodies statically reachable from Message::try_from', len(reach), 150)
+    calls = util.hidden_state_calls(prog, reach)
+    by = {}
+    for b, nm, sp in calls:
+        by.setdefault((b['name'], nm.split('<')[0]), []).append('%s:%s' % (b['file'], sp))
+    for (fn, nm), sites in sorted(by.items()):
+        rep.fail('R-redecode-stateless', 'state#%s#%s' % (fn, nm), sites[0],
+                 '%s (reachable from Message::try_from) uses %s: the decoder keeps state between two calls, so decoding the kept hex again can give other fields than the record shows' % (fn, nm))
+    rep.check(True, 'R-redecode-stateless', 'reachable-bodies-scanned', msg_try['file'], '', sample={'bodies_scanned': len(reach), 'state_uses': len(calls)}, nontrivial=False)
+    # "without ... non-finite numbers": C08's finiteness rule (every float stored in a decoded value is finite, NaN-free)
+    from props import c08
+    c08.run(prog, util.Prefixed(rep, 'R-finite/', only=('R2',)), tier, only='R2')
